@@ -49,7 +49,8 @@ def _copy_pkg(repo, dst):
 
 
 def _ensure_scratch(base, repo):
-    d = os.path.join(base, "w%d" % os.getppid())
+    # the install path contains a '%' and a space on purpose (Jenkins 'feature%2Ftz', 'My Project')
+    d = os.path.join(base, "w%d %%2Fx" % os.getppid())
     if not os.path.isdir(os.path.join(d, "dateparser")):
         tmp = d + ".tmp%d" % os.getpid()
         _copy_pkg(repo, tmp)
@@ -373,8 +374,8 @@ def build_states(tier, seed, shipped, runs=None):
     return states, exhaustive
 
 
-def real_import(scratch, build_env):
-    """Layer (c): a genuinely separate interpreter."""
+def real_import(scratch, build_env, optimize=False):
+    """Layer (c): a genuinely separate interpreter (optionally started with -O)."""
     e = dict(os.environ)
     e["PYTHONPATH"] = scratch
     e.pop("BUILD_TZ_CACHE", None)
@@ -391,7 +392,7 @@ def real_import(scratch, build_env):
         "from checks.c19_crash import canon_table, probe_functions\n"
         "import json; print('RESULT', json.dumps({'table': canon_table(tp), 'probe': probe_functions(tp), 'file': dateparser.__file__}))\n"
     ) % (scratch, env.VERIF_DIR)
-    pr = subprocess.run([sys.executable, "-c", code], env=e, capture_output=True, text=True, timeout=120, cwd="/")
+    pr = subprocess.run([sys.executable] + (["-O"] if optimize else []) + ["-c", code], env=e, capture_output=True, text=True, timeout=120, cwd="/")
     out = {"rc": pr.returncode, "err": pr.stderr.strip().splitlines()[-1:] if pr.returncode else []}
     for line in pr.stdout.splitlines():
         if line.startswith("RESULT "):
@@ -413,10 +414,10 @@ def run_real(p):
     else:
         with open(cache, "wb") as f:
             f.write(data)
-    r1 = real_import(scratch, p["build_env"])
+    r1 = real_import(scratch, p["build_env"], p.get("optimize", False))
     c1 = _file_complete_subprocess(scratch)
-    r2 = real_import(scratch, p["build_env"])
-    return {"state": p["state"], "build_env": p["build_env"], "r1": r1, "complete1": c1, "r2": r2}
+    r2 = real_import(scratch, p["build_env"], p.get("optimize", False))
+    return {"state": p["state"], "build_env": p["build_env"], "optimize": p.get("optimize", False), "r1": r1, "complete1": c1, "r2": r2}
 
 
 CRASHER = r"""
@@ -634,6 +635,9 @@ def explore(args, rep, base, shipped, tier, seed):
         real_payloads = [dict(cands[crng.randrange(len(cands))]) for _ in range(n_real)]
         real_payloads[0] = {"scratch": base, "state": {"kind": "empty"}, "build_env": False}
         real_payloads[1] = {"scratch": base, "state": {"kind": "missing"}, "build_env": False}
+        for i_, rp_ in enumerate(real_payloads):
+            rp_["optimize"] = (i_ % 3 == 2)  # a third of the real interpreters run with -O (asserts compiled away)
+        real_payloads[2] = {"scratch": base, "state": {"kind": "missing"}, "build_env": False, "optimize": True}
         rres = farm.map("checks.c19_crash:run_real", real_payloads, timeout=300)
         n_real_ok = 0
         for p, (st, val) in zip(real_payloads, rres):
@@ -653,7 +657,7 @@ def explore(args, rep, base, shipped, tier, seed):
             elif val["r2"].get("table") != ref["table"]:
                 bad.append(("I4-second-table-differs", ""))
             if bad:
-                sig = {"layer": "c", "state_kind": val["state"]["kind"], "invariant": bad[0][0], "detail": bad[0][1]}
+                sig = {"layer": "c", "state_kind": val["state"]["kind"], "invariant": bad[0][0], "detail": bad[0][1], "python_O": val.get("optimize", False)}
                 rep.violation(sig, {"layer": "c", "run": "real-%s-%s" % (val["state"]["kind"], val["state"].get("k", "")), "state": val["state"], "build_env": val["build_env"], "seed": seed, "broken": bad}, "real interpreter, state %r: %s" % (val["state"], bad))
         # layer (d): real crash in the middle of the write, then real imports
         drng = seeds.rng_for(seed, PROP, "crash")
